@@ -8,6 +8,10 @@ import (
 	"go/ast"
 	goparser "go/parser"
 	"go/token"
+	"io"
+	"log/slog"
+	"os"
+	"path/filepath"
 	"reflect"
 	"regexp"
 	"runtime"
@@ -20,8 +24,18 @@ import (
 	"verif/tgen"
 	"verif/vlib"
 
+	"github.com/a-h/templ/cmd/templ/fmtcmd"
 	parser "github.com/a-h/templ/parser/v2"
 )
+
+var quietLog = slog.New(slog.NewTextHandler(io.Discard, nil))
+
+// FormatCmd is `templ fmt` reading stdin and writing stdout (the real command function).
+func FormatCmd(src string) (string, error) {
+	var out bytes.Buffer
+	err := fmtcmd.Run(quietLog, strings.NewReader(src), &out, fmtcmd.Arguments{})
+	return out.String(), err
+}
 
 // Format is what `templ fmt` does to a file read from stdin: ParseString + TemplateFile.Write.
 func Format(src string) (string, error) {
@@ -331,11 +345,159 @@ func Classify(src string, tf parser.TemplateFile, formatted string) string {
 	return ""
 }
 
+// checkOne runs the property's comparison for one input and one way of formatting.
+func checkOne(run *vlib.Run, id string, in Input, via string, Format func(string) (string, error), goA string, tf parser.TemplateFile, changed, notFixed *atomic.Int64) {
+	replay := map[string]any{"input": via + in.Name, "source": in.Src}
+	f1, err := Format(in.Src)
+	if err != nil {
+		run.Violation("format-error", fmt.Sprintf("%s%s: formatting failed: %v", via, in.Name, err), replay)
+		return
+	}
+	replay["formatted"] = f1
+	if f1 != in.Src {
+		changed.Add(1)
+	}
+	known := func(def string) string {
+		if k := Classify(in.Src, tf, f1); k != "" {
+			return k
+		}
+		return def
+	}
+	if id == "C08" {
+		goB, _, _, err := tgen.Generate(f1, "x.templ")
+		if err != nil {
+			run.Violation(known("formatted-file-rejected"), fmt.Sprintf("%s%s: the formatted file is no longer accepted: %v\nsource:\n%s\nformatted:\n%s", via, in.Name, err, in.Src, f1), replay)
+			return
+		}
+		if pr := sameProgram(goA, goB); pr != "" {
+			key := "meaning-changed:" + shapeOf(in.Name)
+			// the known layout defects only ever add or drop whitespace; anything else is not attributed to them
+			if onlyStaticWhitespaceDiffers(goA, goB) {
+				key = known("whitespace-changed:" + shapeOf(in.Name))
+			}
+			run.Violation(key, fmt.Sprintf("%s%s: generated code differs after formatting at %s\nsource:\n%s\nformatted:\n%s", via, in.Name, pr, in.Src, f1), replay)
+		}
+	} else {
+		f2, err := Format(f1)
+		if err != nil {
+			run.Violation(known("formatted-file-rejected"), fmt.Sprintf("%s%s: the formatter's own output does not parse: %v\nformatted:\n%s", via, in.Name, err, f1), replay)
+			return
+		}
+		if f2 != f1 {
+			notFixed.Add(1)
+			key := "not-idempotent:" + shapeOf(in.Name)
+			// the known layout defect only moves line breaks and converges on the second pass
+			if f3, err := Format(f2); err == nil && f3 == f2 && strings.Join(strings.Fields(f1), "") == strings.Join(strings.Fields(f2), "") {
+				key = known(key)
+			}
+			run.Violation(key, fmt.Sprintf("%s%s: formatting the formatted file changes it again\nsource:\n%s\nfmt(x):\n%s\nfmt(fmt(x)):\n%s", via, in.Name, in.Src, f1, f2), replay)
+		}
+	}
+}
+
+// filesMode runs the real `templ fmt <dir>` (files rewritten in place, import section managed) over every accepted
+// input at once, then `templ fmt -fail <dir>` over its result: the second run must report nothing to do and leave
+// every file as it is (C09); where the first run's result differs from the library call's, the property's
+// comparison is made for that result too.
+func filesMode(run *vlib.Run, id string, inputs []Input, acceptedAt []bool, changed, notFixed *atomic.Int64) {
+	dir := filepath.Join(tgen.Scratch(), "fmtfiles")
+	os.RemoveAll(dir)
+	if err := os.MkdirAll(dir, 0o755); err != nil {
+		vlib.Fatal("mkdir: %v", err)
+	}
+	defer os.RemoveAll(dir)
+	name := func(i int) string { return filepath.Join(dir, fmt.Sprintf("i%06d.templ", i)) }
+	n := 0
+	for i, in := range inputs {
+		if acceptedAt[i] {
+			if err := os.WriteFile(name(i), []byte(in.Src), 0o644); err != nil {
+				vlib.Fatal("write: %v", err)
+			}
+			n++
+		}
+	}
+	read := func(i int) string {
+		b, err := os.ReadFile(name(i))
+		if err != nil {
+			vlib.Fatal("read back: %v", err)
+		}
+		return string(b)
+	}
+	err1 := fmtcmd.Run(quietLog, nil, io.Discard, fmtcmd.Arguments{Files: []string{dir}, WorkerCount: runtime.NumCPU()})
+	if err1 != nil {
+		run.Violation("fmt-command-error", fmt.Sprintf("`templ fmt <dir>` over %d accepted templates failed: %v", n, firstLine(err1.Error())), map[string]any{"error": err1.Error()})
+		return
+	}
+	first := map[int]string{}
+	differs := 0
+	for i := range inputs {
+		if acceptedAt[i] {
+			first[i] = read(i)
+		}
+	}
+	err2 := fmtcmd.Run(quietLog, nil, io.Discard, fmtcmd.Arguments{Files: []string{dir}, WorkerCount: runtime.NumCPU(), FailIfChanged: true})
+	var wg sync.WaitGroup
+	sem := make(chan struct{}, runtime.NumCPU())
+	secondChanged := atomic.Int64{}
+	for i := range inputs {
+		if !acceptedAt[i] {
+			continue
+		}
+		i := i
+		in := inputs[i]
+		lib, _ := Format(in.Src)
+		g1 := first[i]
+		g2 := read(i)
+		if g1 == lib && g2 == g1 {
+			continue
+		}
+		differs++
+		wg.Add(1)
+		sem <- struct{}{}
+		go func() {
+			defer wg.Done()
+			defer func() { <-sem }()
+			if g2 != g1 {
+				secondChanged.Add(1)
+			}
+			goA, _, tf, err := tgen.Generate(in.Src, "x.templ")
+			if err != nil {
+				return
+			}
+			pass := 0
+			checkOne(run, id, in, "`templ fmt <dir>` (file rewritten in place): ", func(string) (string, error) {
+				pass++
+				if pass == 1 {
+					return g1, nil
+				}
+				if pass == 2 {
+					return g2, nil
+				}
+				return Format(g2)
+			}, goA, tf, changed, notFixed)
+		}()
+	}
+	wg.Wait()
+	if id == "C09" && (err2 != nil) != (secondChanged.Load() > 0) {
+		run.Violation("fmt-fail-disagrees", fmt.Sprintf("`templ fmt -fail <dir>` after `templ fmt <dir>` returned %v although %d files changed in the second run", err2, secondChanged.Load()), map[string]any{})
+	}
+	run.Cov["files_formatted_in_place_by_templ_fmt"] = n
+	run.Cov["files_where_the_command_result_differs_from_the_library_call"] = differs
+}
+
+func firstLine(s string) string {
+	if i := strings.Index(s, "\n"); i >= 0 {
+		return s[:i]
+	}
+	return s
+}
+
 // Run executes the check for property id ("C08" or "C09").
 func Run(id string) {
 	run := vlib.Start(id, "exploration")
 	inputs := Inputs(run.Thorough())
-	var accepted, changed, notFixed atomic.Int64
+	var accepted, changed, notFixed, cmdChecked atomic.Int64
+	acceptedAt := make([]bool, len(inputs))
 	var wg sync.WaitGroup
 	var next atomic.Int64
 	for g := 0; g < runtime.NumCPU(); g++ {
@@ -353,56 +515,35 @@ func Run(id string) {
 					continue // not accepted by `templ generate`
 				}
 				accepted.Add(1)
-				replay := map[string]any{"input": in.Name, "source": in.Src}
-				f1, err := Format(in.Src)
-				if err != nil {
-					run.Violation("format-error", fmt.Sprintf("%s: formatting failed: %v", in.Name, err), replay)
-					continue
+				acceptedAt[i] = true
+				type formatter struct {
+					name string
+					f    func(string) (string, error)
 				}
-				replay["formatted"] = f1
-				if f1 != in.Src {
-					changed.Add(1)
-				}
-				known := func(def string) string {
-					if k := Classify(in.Src, tf, f1); k != "" {
-						return k
-					}
-					return def
-				}
-				if id == "C08" {
-					goB, _, _, err := tgen.Generate(f1, "x.templ")
-					if err != nil {
-						run.Violation(known("formatted-file-rejected"), fmt.Sprintf("%s: the formatted file is no longer accepted: %v\nsource:\n%s\nformatted:\n%s", in.Name, err, in.Src, f1), replay)
-						continue
-					}
-					if pr := sameProgram(goA, goB); pr != "" {
-						key := "meaning-changed:" + shapeOf(in.Name)
-						// the known layout defects only ever add or drop whitespace; anything else is not attributed to them
-						if onlyStaticWhitespaceDiffers(goA, goB) {
-							key = known("whitespace-changed:" + shapeOf(in.Name))
+				fs := []formatter{{"", Format}}
+				// `templ fmt` itself (stdin to stdout): checked separately wherever it disagrees with the library call
+				lib1, lerr := Format(in.Src)
+				cmd1, cerr := FormatCmd(in.Src)
+				cmdChecked.Add(1)
+				if (lerr == nil) != (cerr == nil) || cmd1 != lib1 {
+					fs = append(fs, formatter{"`templ fmt` (stdin): ", FormatCmd})
+				} else if lerr == nil {
+					// same first pass: the second pass of the command is compared as well (C09)
+					if c2, err := FormatCmd(lib1); id == "C09" && (err != nil || c2 != lib1) {
+						if l2, lerr2 := Format(lib1); lerr2 != nil || l2 != c2 {
+							fs = append(fs, formatter{"`templ fmt` (stdin): ", FormatCmd})
 						}
-						run.Violation(key, fmt.Sprintf("%s: generated code differs after formatting at %s\nsource:\n%s\nformatted:\n%s", in.Name, pr, in.Src, f1), replay)
 					}
-				} else {
-					f2, err := Format(f1)
-					if err != nil {
-						run.Violation(known("formatted-file-rejected"), fmt.Sprintf("%s: the formatter's own output does not parse: %v\nformatted:\n%s", in.Name, err, f1), replay)
-						continue
-					}
-					if f2 != f1 {
-						notFixed.Add(1)
-						key := "not-idempotent:" + shapeOf(in.Name)
-						// the known layout defect only moves line breaks and converges on the second pass
-						if f3, err := Format(f2); err == nil && f3 == f2 && strings.Join(strings.Fields(f1), "") == strings.Join(strings.Fields(f2), "") {
-							key = known(key)
-						}
-						run.Violation(key, fmt.Sprintf("%s: formatting the formatted file changes it again\nsource:\n%s\nfmt(x):\n%s\nfmt(fmt(x)):\n%s", in.Name, in.Src, f1, f2), replay)
-					}
+				}
+				for _, fm := range fs {
+					checkOne(run, id, in, fm.name, fm.f, goA, tf, &changed, &notFixed)
 				}
 			}
 		}()
 	}
 	wg.Wait()
+	filesMode(run, id, inputs, acceptedAt, &changed, &notFixed)
+	run.Cov["formatted_through_templ_fmt_stdin"] = cmdChecked.Load()
 	if id == "C09" {
 		// history independence: format-on-save (a long-lived process that has formatted other files before) and a
 		// fresh `templ fmt` must agree. Every input is formatted again, sequentially on one goroutine, first in
@@ -443,7 +584,7 @@ func Run(id string) {
 	if int(accepted.Load())*10 < len(inputs)*6 {
 		vlib.Fatal("only %d of %d inputs accepted: vacuous", accepted.Load(), len(inputs))
 	}
-	run.Assumption("formatter under test = ParseString + TemplateFile.Write (what `templ fmt` does for stdin); import rewriting of the file path mode is not exercised")
+	run.Assumption("formatters under test: ParseString + TemplateFile.Write (library call, LSP formatting), fmtcmd.Run stdin to stdout, and fmtcmd.Run over a directory of files followed by a -fail run; the import section management of file mode only sees the standard library (no module around the scratch files)")
 	run.Finish(int(accepted.Load()), int(changed.Load()), "every templ text of the repository, every program of the enumerated space in 2-4 concrete spellings (as printed, no indentation, padded expressions + blank lines, CRLF), hand-enumerated spelling products (constant attribute values × quotes, container × child kind × single/multi-line, expression shapes); distinct = inputs; non-trivial = inputs the formatter changes")
 }
 
